@@ -8,6 +8,24 @@ pub fn run(cases_path: &str, out_path: &str) {
     let cases = read_cases(cases_path);
     let mut out = Out::create(out_path);
     for c in &cases {
+        if c.get("isolate").and_then(|b| b.as_bool()).unwrap_or(false) && std::env::var("VH_CHILD").is_err() {
+            // an input that may take the process down runs in a process of its own; its death is a panic
+            let dir = std::path::PathBuf::from(std::env::var("VH_TMP").unwrap_or_else(|_| "/verif/work/files".to_string()));
+            let _ = std::fs::create_dir_all(&dir);
+            let base = format!("isoneg{}_{}", std::process::id(), c["id"].as_u64().unwrap_or(0));
+            let (cp, tp) = (dir.join(format!("{base}.cases.ndjson")), dir.join(format!("{base}.trace.ndjson")));
+            std::fs::write(&cp, format!("{}\n", c)).expect("write isolated case");
+            let _ = std::env::current_exe().and_then(|exe| {
+                std::process::Command::new(exe).arg("neg").arg(&cp).arg(&tp).env("VH_CHILD", "1")
+                    .stdout(std::process::Stdio::null()).stderr(std::process::Stdio::null()).status()
+            });
+            let ev = std::fs::read_to_string(&tp).ok()
+                .and_then(|t| t.lines().next().and_then(|l| serde_json::from_str::<serde_json::Value>(l).ok()));
+            out.emit(ev.unwrap_or_else(|| json!({"ev": "neg", "case": c["id"], "abs": c["abs"], "res": "panic"})));
+            let _ = std::fs::remove_file(&cp);
+            let _ = std::fs::remove_file(&tp);
+            continue;
+        }
         let mut h = http::HeaderMap::new();
         let mut skipped = false;
         // an earlier call on this thread with another value (its answer is not recorded): the value is
